@@ -242,7 +242,7 @@ def make_spec(stream, rng, edge_index=None):
         spec["delay"] = None
         obs = spec["observations"]
         kinds = ["threshold", "handover", "threshold2", "hotfit", "coldfit", "machines", "ingestlimit", "arrays", "rate",
-                 "coldshort", "ingestlimit3", "ratefrac", "emptywf", "stalecheck", "hugecap", "doubleadmit"]
+                 "coldshort", "ingestlimit3", "ratefrac", "emptywf", "stalecheck", "hugecap", "doubleadmit", "coldinflight", "toowide"]
         which = kinds[edge_index % len(kinds)] if edge_index is not None else rng.choice(kinds)
         obs.sort(key=lambda o: o["start"])
         if len(obs) < 2 and which in ("threshold2", "hotfit", "ingestlimit", "arrays", "handover"):
@@ -389,6 +389,31 @@ def make_spec(stream, rng, edge_index=None):
                 spec["scheduling"] = {"kind": "batch", "partitions": 1, "min": 1, "split": None}
             if spec["scheduling"]["kind"] == "dynamic":
                 spec["planning"], spec["scheduling"] = "batch", {"kind": "queue"}
+        elif which == "coldinflight":
+            # an observation falls due while another one is on its way from the hot to the cold tier: the cold tier
+            # shows room for it, but not once the rest of the move has arrived - it has to wait
+            chain = lambda first: {"nodes": [{"id": 0, "comp": first}, {"id": 1, "comp": 10}], "edges": [[0, 1, 1]]}
+            dc, rc = rng.choice([(30, 1), (15, 2), (10, 3)])
+            spec["observations"] = obs = [
+                {"name": "a", "start": 0, "duration": 1, "demand": 1, "rate": 41, "ingest_demand": 1, "workflow": chain(180)},
+                {"name": "a2", "start": 1, "duration": 1, "demand": 1, "rate": 7, "ingest_demand": 1, "workflow": chain(100)},
+                {"name": "b", "start": 2, "duration": 1, "demand": 1, "rate": 13, "ingest_demand": 1, "workflow": chain(10)},
+                {"name": "c", "start": 5, "duration": dc, "demand": 1, "rate": rc, "ingest_demand": 1, "workflow": chain(10)}]
+            spec["machines"] = [{"id": "m%d" % i, "flops": 10, "bw": 2} for i in range(rng.choice([4, 5]))]
+            nm = len(spec["machines"])
+            spec["max_ingest"] = 2
+            spec["total_arrays"] = 4
+            spec["hot"] = {"capacity": 100, "rate": 50}
+            spec["cold"] = {"capacity": 42, "rate": 5}
+            spec["planning"], spec["scheduling"] = "batch", {"kind": "queue"}
+        elif which == "toowide":
+            # an observation that asks for more arrays than the telescope has: it can never be observed, the run
+            # never completes - and no idleness query may say otherwise (only the queries are judged on this run)
+            k = rng.randrange(len(obs))
+            spec["total_arrays"] = max([o["demand"] for o in obs] + [spec["total_arrays"]])
+            obs[k]["demand"] = spec["total_arrays"] + rng.randint(1, 2)
+            opt["only_props"] = ["C19"]
+            opt["replay"] = False
         elif which == "hugecap":
             # tiers many orders of magnitude larger than what is stored in them (exact integers)
             spec["hot"]["capacity"] = 4 * 10 ** 12
@@ -433,7 +458,7 @@ def make_spec(stream, rng, edge_index=None):
             spec["observations"] = obs = [x, y] + rest
         for o in obs:
             o["ingest_demand"] = min(o["ingest_demand"], spec["max_ingest"], nm)
-        if which not in ("threshold", "threshold2", "hotfit", "coldfit", "coldshort", "stalecheck", "hugecap"):
+        if which not in ("threshold", "threshold2", "hotfit", "coldfit", "coldshort", "stalecheck", "hugecap", "coldinflight"):
             tot = sum(o["rate"] * o["duration"] for o in obs)
             spec["hot"]["capacity"] = int(tot / 0.6) + 5
             spec["cold"]["capacity"] = spec["hot"]["capacity"] + 5
@@ -447,11 +472,74 @@ def make_spec(stream, rng, edge_index=None):
         opt["replay"] = False
         opt["shutdown_at"] = rng.randint(1, max(2, last + 3))
         opt["only_props"] = ["C19"]
+    elif stream == "joinrace":
+        # plan-following scheduling of joins whose predecessors were planned to end together (equal roots on
+        # machines of equal speed) and end, at run time, in an order the plan did not foresee (scripted delays)
+        spec = simgen.gen_spec(rng)
+        spec["planning"], spec["scheduling"] = "static", {"kind": rng.choice(["dynamic", "dynamic", "dynamic", "greedy"])}
+        spec["static_seed"] = rng.randint(0, 10 ** 6)
+        f0 = spec["machines"][0]["flops"]
+        while len(spec["machines"]) < 3:
+            spec["machines"].append({"id": "mz%d" % len(spec["machines"]), "flops": f0, "bw": spec["machines"][0]["bw"]})
+        for m in spec["machines"]:
+            m["flops"] = f0
+        for o in spec["observations"]:
+            o["workflow"] = simgen.gen_workflow(rng, 4, [f0], shape="fanin")
+            k = rng.randint(1, 3)
+            with_succ = {e[0] for e in o["workflow"]["edges"]}
+            for nd in o["workflow"]["nodes"]:
+                if nd["id"] in with_succ:
+                    nd["comp"] = f0 * k + (rng.choice([0, 0, f0]) if rng.random() < 0.3 else 0)
+                    nd.pop("task_data", None)
+        if rng.random() < 0.75:
+            # every root on a machine of its own, the join on the machine of one of them
+            sp = {}
+            mids = [m["id"] for m in spec["machines"]]
+            for o in spec["observations"]:
+                with_succ = sorted({e[0] for e in o["workflow"]["edges"]}, key=str)
+                join = [nd["id"] for nd in o["workflow"]["nodes"] if nd["id"] not in with_succ]
+                asg = {str(r): mids[i % len(mids)] for i, r in enumerate(with_succ)}
+                for j in join:
+                    asg[str(j)] = mids[rng.randrange(min(len(mids), max(1, len(with_succ))))]
+                sp[o["name"]] = asg
+            spec["static_plan"] = sp
+        spec["delay"] = {"script_seed": rng.randint(0, 10 ** 6), "p": 0.6, "max": 8}
+        if rng.random() < 0.3:
+            spec["static_slack"] = rng.choice([2, 5])
     elif stream == "delays":
         spec = simgen.gen_spec(rng)
+        if rng.random() < 0.35:
+            # joins whose predecessors end in an order the plan did not foresee
+            forced = rng.random() < 0.7
+            if forced:
+                spec["planning"], spec["scheduling"] = "static", {"kind": rng.choice(["dynamic", "dynamic", "greedy"])}
+                spec["static_seed"] = rng.randint(0, 10 ** 6)
+                while len(spec["machines"]) < 3:
+                    spec["machines"].append({"id": "mz%d" % len(spec["machines"]), "flops": spec["machines"][0]["flops"],
+                                             "bw": spec["machines"][0]["bw"]})
+            for o in spec["observations"]:
+                o["workflow"] = simgen.gen_workflow(rng, 4, [m["flops"] for m in spec["machines"]], shape="fanin")
+            if forced:
+                # roots of equal planned length on machines of equal speed: the planned finishing order is a tie-break
+                if rng.random() < 0.7:
+                    f0 = spec["machines"][0]["flops"]
+                    for m in spec["machines"]:
+                        m["flops"] = f0
+                    for o in spec["observations"]:
+                        k = rng.randint(1, 3)
+                        ids_with_succ = {e[0] for e in o["workflow"]["edges"]}
+                        for nd in o["workflow"]["nodes"]:
+                            if nd["id"] in ids_with_succ:
+                                nd["comp"] = f0 * k
+                                nd.pop("task_data", None)
+                # delays large enough to turn the planned finishing order of the roots around
+                spec["delay"] = {"script_seed": rng.randint(0, 10 ** 6), "p": 0.5, "max": 8}
+                spec["_fanin_forced"] = True
         if spec["planning"] == "static" and rng.random() < 0.6:
             spec["static_slack"] = rng.choice([2, 5, 20])     # plans with room: a delayed task may still be "on plan"
-        if rng.random() < 0.6:
+        if spec.pop("_fanin_forced", False):
+            pass
+        elif rng.random() < 0.6:
             spec["delay"] = {"script_seed": rng.randint(0, 10 ** 6), "p": 0.6, "max": 5}
         else:
             spec["delay"] = {"prob": rng.choice([0.3, 0.7, 1.0]), "degree": rng.choice(["LOW", "MID", "HIGH"]),
